@@ -376,6 +376,10 @@ def run(ctx):
             if wire is not None and mmsg is not None and len(data) >= 8:
                 wire.add("file %d %s" % (fno, what), mmsg, data[8:],
                          strict=(fclass == "none"))
+            elif wire is not None and len(data) >= 8:
+                wire.add_raw("file %d %s" % (fno, what), data[8:])
+            if wire is not None and mmsg is None and ir is None:
+                wire.add_faulty_file("file %d %s" % (fno, what), data, out)
             # model comparison on the message level
             if mmsg is not None:
                 M = irdump.dump_mir(mmsg)
@@ -388,6 +392,9 @@ def run(ctx):
                         obs = "ok ?dump-raised:" + type(e).__name__   # above)
                 else:
                     obs = out
+                if wire is not None:    # the whole-file model loader
+                    wire.add_faulty_file("file %d %s" % (fno, what), data,
+                                         obs)
 
                 def cb(i, line, a, b, fclass=fclass):
                     # duplicates are outside the value-level reader; with
